@@ -259,9 +259,10 @@ Theorem C18_subgraph_from_decomposition : forall n (A V : mat Q) (lam : vec Q),
   forall i k, (i < n)%nat -> (k < n)%nat -> sumQ (fun l => A i l * V l k) n == lam k * V i k.
 Proof. exact decomposition_gives_eigen. Qed.
 
-(* FULL statement (NOT proved): the diagonal of the matrix exponential, i.e. the limit m -> infinity of the truncated
-   series sum_{t<=m} A^t/t!, equals sum_k V_ik^2 exp(lam_k).  exp is not a rational function, so the statement lives over
-   Coq's reals; it is recorded here and left open. *)
+(* the statement about expm over RATIONAL matrices with a rational eigen-decomposition: the diagonal of the matrix
+   exponential, i.e. the limit m -> infinity of the truncated series sum_{t<=m} A^t/t!, equals sum_k V_ik^2 exp(lam_k).
+   exp is not a rational function, so the statement lives over Coq's reals.  (Recorded as an open Definition until the
+   extension round; now PROVED: C18_subgraph_expm_rational below; C18_subgraph_expm is the general real version.) *)
 From Coq Require Reals Qreals.
 Definition C18_subgraph_full_statement : Prop :=
   forall n (A V : mat Q) (lam : vec Q),
@@ -277,14 +278,62 @@ Definition C18_subgraph_full_statement : Prop :=
             (map (fun k => Rdefinitions.Rmult (Rdefinitions.Q2R (V i k * V i k)) (Rtrigo_def.exp (Rdefinitions.Q2R (lam k)))) (seq 0 n)))))
       eps.
 
-(* what IS proved of it: for every truncation order m the truncated series of the matrix equals the code's formula
-   with the truncated series of exp — both sides converge as m grows, that last step is the part left open *)
-Theorem C18_subgraph_truncated_exp_partial : forall n (A V : mat Q) (lam : vec Q),
-  (forall i k, (i < n)%nat -> (k < n)%nat -> sumQ (fun l => A i l * V l k) n == lam k * V i k) ->
-  (forall i j, (i < n)%nat -> (j < n)%nat -> sumQ (fun k => V i k * V j k) n == delta i j) ->
-  forall m i, (i < n)%nat ->
-  pevalM n (expcoef m) A i i == sumQ (fun k => V i k * V i k * peval (expcoef m) (lam k)) n.
-Proof. intros n A V lam H1 H2 m i Hi. exact (subgraph_poly n A V lam H1 H2 (expcoef m) i Hi). Qed.
+From Coq Require Import Reals.
+From BCT Require Import Proofs.LinearReal.
+
+(* FULL, over the REALS (Proofs/LinearReal.v; stdlib Reals only).  A, V, lam are arbitrary real arrays on the grid
+   [0,n) constrained only by eigh's equations A v_k = lam_k v_k, V V^T = I (so irrational eigenvalues / eigenvectors - the
+   generic case - are covered, which the rational statements cannot do).  sumR f n = sum_{k<n} f k; mpowR n A m = A^m
+   (A^0 = I, A^(m+1) = A A^m, products over the grid); expmR n A is the matrix exponential as a TOTAL function of the
+   matrix alone: entry (i,j) is the sum of the series sum_m (A^m)_ij / m! (stdlib `infinite_sum`).  Then
+     (1) expmR n A is entrywise the sum of that series, (2) nothing else is (uniqueness of the limit),
+     (3) expm(A) = V exp(Lambda) V^T, and (4) diag(expm(A))_i = sum_k V_ik^2 exp(lam_k)
+   = `np.dot(vecs * vecs, np.exp(vals))`, the expression subgraph_centrality returns. *)
+Theorem C18_subgraph_expm : forall n (A V : nat -> nat -> R) (lam : nat -> R),
+  (forall i k, (i < n)%nat -> (k < n)%nat -> sumR (fun l => A i l * V l k)%R n = (lam k * V i k)%R) ->
+  (forall i j, (i < n)%nat -> (j < n)%nat -> sumR (fun k => V i k * V j k)%R n = deltaR i j) ->
+  (forall i j, (i < n)%nat -> (j < n)%nat ->
+     infinite_sum (fun m => / INR (fact m) * mpowR n A m i j)%R (expmR n A i j)) /\
+  (forall E : nat -> nat -> R,
+     (forall i j, (i < n)%nat -> (j < n)%nat -> infinite_sum (fun m => / INR (fact m) * mpowR n A m i j)%R (E i j)) ->
+     forall i j, (i < n)%nat -> (j < n)%nat -> E i j = expmR n A i j) /\
+  (forall i j, (i < n)%nat -> (j < n)%nat -> expmR n A i j = sumR (fun k => V i k * exp (lam k) * V j k)%R n) /\
+  (forall i, (i < n)%nat -> expmR n A i i = sumR (fun k => V i k * V i k * exp (lam k))%R n).
+Proof. exact subgraph_expmR. Qed.
+
+(* the series defining expmR converges for EVERY real matrix (no decomposition assumed): |(A^m)_ij| <= c^m with
+   c = sum of |entries|, domination by the scalar exponential series of c *)
+Theorem C18_expm_defined : forall n (A : nat -> nat -> R) i j, (i < n)%nat -> (j < n)%nat ->
+  infinite_sum (fun m => / INR (fact m) * mpowR n A m i j)%R (expmR n A i j).
+Proof. exact expmR_is_expm. Qed.
+
+(* the formerly open statement, verbatim; and the value of its limit is the diagonal of expmR of the real image of A *)
+Theorem C18_subgraph_expm_rational :
+  C18_subgraph_full_statement /\
+  (forall n (A V : mat Q) (lam : vec Q),
+   (forall i k, (i < n)%nat -> (k < n)%nat -> sumQ (fun l => A i l * V l k) n == lam k * V i k) ->
+   (forall i j, (i < n)%nat -> (j < n)%nat -> sumQ (fun k => V i k * V j k) n == delta i j) ->
+   forall i, (i < n)%nat ->
+   expmR n (fun a b => Q2R (A a b)) i i = sumR (fun k => Q2R (V i k * V i k) * exp (Q2R (lam k)))%R n).
+Proof. split; [exact subgraph_expm_rational|exact subgraph_expm_rational_value]. Qed.
+
+(* truncations (a lemma now, no longer the end of the story): for every order m the truncated series of the matrix
+   equals the code's formula with the truncated series of exp; and the rational Horner truncation of Model/Linear.v
+   (pevalM with Qred and tab) is, entry for entry, the m-th partial sum of the real series whose sum is expmR *)
+Theorem C18_subgraph_truncated_exp :
+  (forall n (A V : mat Q) (lam : vec Q),
+   (forall i k, (i < n)%nat -> (k < n)%nat -> sumQ (fun l => A i l * V l k) n == lam k * V i k) ->
+   (forall i j, (i < n)%nat -> (j < n)%nat -> sumQ (fun k => V i k * V j k) n == delta i j) ->
+   forall m i, (i < n)%nat ->
+   pevalM n (expcoef m) A i i == sumQ (fun k => V i k * V i k * peval (expcoef m) (lam k)) n) /\
+  (forall n (A : mat Q) m i j, (i < n)%nat -> (j < n)%nat ->
+   Q2R (pevalM n (expcoef m) A i j)
+   = sum_f_R0 (fun t => / INR (fact t) * mpowR n (fun a b => Q2R (A a b)) t i j)%R m).
+Proof.
+  split.
+  - intros n A V lam H1 H2 m i Hi. exact (subgraph_poly n A V lam H1 H2 (expcoef m) i Hi).
+  - exact pevalM_expcoef_partial.
+Qed.
 
 (* ------------------------------------------------------------------ eigenvector centrality *)
 (* FULL statement: for symmetric non-negative A, u the unit eigenvector eig returns for the largest eigenvalue,
@@ -393,6 +442,14 @@ Example C18_nonvacuous_select :
   mfpt_select (1 # 100) [2; 1 # 2] = SelTolerance.
 Proof. vm_compute. repeat split; reflexivity. Qed.
 
+(* K_2 with its IRRATIONAL orthonormal eigenbasis (1,1)/sqrt 2, (1,-1)/sqrt 2, eigenvalues 1, -1: the hypotheses of
+   C18_subgraph_expm hold and the subgraph centrality of both nodes is (e + 1/e)/2 = cosh 1 *)
+Example C18_subgraph_expm_nonvacuous :
+  (forall i k, (i < 2)%nat -> (k < 2)%nat -> sumR (fun l => K2 i l * K2V l k)%R 2 = (K2lam k * K2V i k)%R) /\
+  (forall i j, (i < 2)%nat -> (j < 2)%nat -> sumR (fun k => K2V i k * K2V j k)%R 2 = deltaR i j) /\
+  (forall i, (i < 2)%nat -> expmR 2 K2 i i = ((exp 1 + exp (-1)) / 2)%R).
+Proof. exact subgraph_expm_nonvacuous. Qed.
+
 Print Assumptions C18_findwalks_power.
 Print Assumptions C18_findwalks_exact_range.
 Print Assumptions C18_stationary_positive_unique.
@@ -413,5 +470,8 @@ Print Assumptions C18_pagerank_positive.
 Print Assumptions C18_uniform_prior.
 Print Assumptions C18_subgraph_poly.
 Print Assumptions C18_subgraph_from_decomposition.
-Print Assumptions C18_subgraph_truncated_exp_partial.
+Print Assumptions C18_subgraph_truncated_exp.
+Print Assumptions C18_subgraph_expm.
+Print Assumptions C18_expm_defined.
+Print Assumptions C18_subgraph_expm_rational.
 Print Assumptions C18_eigvec_abs_ok_partial.
